@@ -68,6 +68,7 @@ class Session:
         self.gen = values.ValueGen(ck.rng, self.api, self.ts)
         self.types = irdump.top_level_types(self.api)
         self._validators = {}
+        self.ambiguous = {}
 
     def validator(self, label, ir):
         if label not in self._validators:
@@ -155,7 +156,13 @@ def suite_encdec(ck, sessions, n_values, judge=()):
                 cases.append((label, ir, irt, validator, obj, stored))
         # phase 1: encode
         ops = [{'op': 'rt.enc', 'ty': irt, 'v': stored, 'perms': [], 'redact': False} for (_l, _i, irt, _v, _o, stored) in cases]
+        ops += [{'op': 'rt.wire', 'ty': irt, 'v': stored} for (_l, _i, irt, _v, _o, stored) in cases]
         reps = ses.run(ops, [c[5] for c in cases], extra_types=[c[2] for c in cases])
+        reps, flagreps = reps[:len(cases)], reps[len(cases):]
+        # the documented ambiguity (D7) may sit anywhere inside the value: the model's decidable `ambiguousEmpty`
+        # (the excluded hypothesis of C04.decode_wire) classifies it
+        for case, fr in zip(cases, flagreps):
+            ses.ambiguous[id(case[4])] = bool(fr.get('ambiguousEmpty'))
         docs = []
         for case, rep in zip(cases, reps):
             label, ir, irt, validator, obj, stored = case
@@ -220,7 +227,8 @@ def oracle_roundtrip(ck, ses, case, doc, strict):
                 if re_enc[0] != 'ok' or canon(re_enc[1]) != canon(doc):
                     why = 're-encoding differs'
         if why:
-            sig = {'kind': 'roundtrip', 'why': why.split(' (')[0], 'shape': shape_sig(ses, ir, stored)}
+            shape = 'nullable-all-optional-struct-member-empty' if ses.ambiguous.get(id(obj)) else shape_sig(ses, ir, stored)
+            sig = {'kind': 'roundtrip', 'why': why.split(' (')[0], 'shape': shape}
             ck.failing_input('C04 round trip: %s' % why, sig,
                              {'specs': ses.specs, 'type': label, 'value': stored, 'doc': doc, 'strict': strict,
                               'via_string': via_string})
